@@ -22,6 +22,18 @@ PLANNED = {
 
 # property -> dict(level, text, note, technique, design_ref); only properties whose check is built and clean
 CHECKS = {
+    "C03": dict(
+        level="exploration",
+        technique="deterministic simulation with fault injection at the crypt(3) and bcrypt-library seams: seeded backend-switch histories, one-outcome-per-(hasher,secret,settings) oracle across backends",
+        text="Seeded search over histories of set_backend / has_backend / hash / verify / all-backend cross-checks on the nine multi-backend "
+             "hashers and their ldap_/django_ wrappers, each run in a fresh forked process so that 'no backend loaded yet' is part of the state. "
+             "The real crypt(3) and the real bcrypt wheel sit behind proxies that inject NULL / error-token / OSError / bytes / damaged answers, "
+             "capability loss and import failure. Oracle: one outcome per (hasher, secret, settings) over the whole history whatever backend is "
+             "active (incl. non-UTF-8, NUL, 72/73/255/512-byte secrets); a backend reported available is selectable and works; has_backend is a "
+             "dry run; failed switches change nothing; crypt(3) failure falls back transparently for the six crypt-family formats.",
+        note="Trusted: libxcrypt and the bcrypt wheel as mutual references (no third implementation). Minimum costs only. Known findings F12a/F12b "
+             "(bcrypt os_crypt has no fallback) are listed in known_findings.json. Digests under *damaged* crypt answers are not judged (outside the statement).",
+        design_ref="DESIGN.md section 4, C03"),
     "C13": dict(
         level="exploration",
         technique="deterministic simulation (seeded discrete-event histories under a simulated clock) with an independent RFC 4226/6238 reference as oracle",
